@@ -4,6 +4,7 @@
 package c03
 
 import (
+	"bytes"
 	"crypto/elliptic"
 	"crypto/rand"
 	"crypto/sha256"
@@ -134,6 +135,7 @@ type world struct {
 	bst1 type1.BasicPrivateTokenRequestState
 	bst2 type2.BasicPublicTokenRequestState
 
+	req3Variants                         [][]byte // honest requests for the empty origin, 31/32/33/64-byte origins, an unregistered origin
 	req1, req2, req3, req5, reqB         []byte
 	resp1, resp2, resp3, resp5, respB    []byte
 	tok1, tok2, tok3, tok5               []byte
@@ -230,6 +232,18 @@ func theWorld() *world {
 		t3, err := x.st3.FinalizeToken(x.resp3)
 		must(err)
 		x.tok3 = t3.Marshal()
+		// more honest type-3 requests: what lies behind the AEAD cannot be reached by mutating bytes, so the
+		// interesting plaintexts (empty origin = all-zero padding, names filling whole blocks, an unknown origin)
+		// are produced by the honest client
+		for _, o := range []string{"", string(bytes.Repeat([]byte{'a'}, 31)), string(bytes.Repeat([]byte{'b'}, 32)), string(bytes.Repeat([]byte{'c'}, 33)), string(bytes.Repeat([]byte{'d'}, 64)), "unregistered.example"} {
+			if o != "unregistered.example" {
+				must(x.iss3.AddOrigin(o))
+			}
+			reseed("3v" + o)
+			stv, err := type3.NewRateLimitedClientFromSecret(sec).CreateTokenRequest(chal[:], nonce[:], bl, x.iss3.TokenKeyID(), x.iss3.TokenKey(), o, x.iss3.NameKey())
+			must(err)
+			x.req3Variants = append(x.req3Variants, append([]byte{}, stv.Request().Marshal()...))
+		}
 		x.encap = x.iss3.NameKey().Marshal()
 		x.inner = ref.EncodeInnerRequest(7, x.req2[3:], make([]byte, 32))
 
@@ -418,7 +432,7 @@ func allTargets() []*target {
 			run:    func(in []byte) { _, _ = x.st3.FinalizeToken(in) }})
 		add(&target{name: "type5.FinalizeTokens", heavy: true, fields: []int{0, 1, 2, 3}, seeds: [][]byte{x.resp5}, layout: layoutVarintThenRest(0),
 			run: func(in []byte) { _, _ = x.st5.FinalizeTokens(in) }})
-		add(&target{name: "type3.RateLimitedIssuer.Evaluate", heavy: true, fields: []int{0, 1, 83, 84}, seeds: [][]byte{x.req3}, layout: layoutType3Request,
+		add(&target{name: "type3.RateLimitedIssuer.Evaluate", heavy: true, fields: []int{0, 1, 83, 84}, seeds: append([][]byte{x.req3}, x.req3Variants...), layout: layoutType3Request,
 			run: func(in []byte) { _, _, _ = x.iss3.Evaluate(in) }})
 		add(&target{name: "type3.Attester.VerifyRequest", heavy: true, packed: 4, fields: []int{0, 1, 2, 3, 85, 86},
 			seeds: [][]byte{pack(x.req3, x.blind3, x.client3, x.anon)},
